@@ -66,12 +66,31 @@ def oracle_lr(run):
     holder = None
     locks = {}
     unlocks = {}
-    for tid, t in evs:
+    waiting = None      # (writer tid, counter name, index of the load that found it non-zero): C14 writer progress
+    call_idx = {}       # tid -> index of its current `call ls`
+    for idx, (tid, t) in enumerate(evs):
         k = t[0]
+        # ---- C14, writer side: "a writer is delayed only by read handles that are still held" ----------------------
+        # While the writer spins on counter X, a reader whose lock_shared was CALLED after that wait began must not
+        # register in X: it would delay the writer although it did not hold a handle when the wait started, and a
+        # stream of such readers delays it for ever (livelock) — a finite witness of an unbounded delay.
+        if k == "ald" and t[1] in ("lc", "rc") and tid == holder:
+            if t[3] != "0":
+                if waiting is None or waiting[1] != t[1]:
+                    waiting = (tid, t[1], idx)
+            elif waiting is not None and waiting[1] == t[1]:
+                waiting = None
+        elif (k == "ast" and t[1] == "cl") or (k == "mul" and t[1] == "wm"):
+            waiting = None
+        elif k == "rmw" and t[1] in ("lc", "rc") and t[4] == "1" and waiting is not None and waiting[1] == t[1]:
+            if call_idx.get(tid, -1) > waiting[2]:
+                return ("writer (thread %d) spinning on counter %s is delayed by thread %d, whose lock_shared was called after the "
+                        "writer began to wait: later readers can delay the writer for ever (livelock)" % (waiting[0], t[1], tid))
         if k == "call":
             in_call[tid] = t[1]
             prims[tid] = 0
             if t[1] == "ls":
+                call_idx[tid] = idx
                 lo[tid] = done_eff
                 hvals[tid] = []
             elif t[1] == "modify":
